@@ -16,7 +16,8 @@ import (
 type Trace struct {
 	Kind   string            `json:"kind"` // "trace"
 	Store  map[string][]byte `json:"store"`
-	Steps  []core.Req        `json:"steps"` // Cwd is relative to the project root
+	Steps  []core.Req        `json:"steps"`               // Cwd is relative to the project root
+	Alt    []core.Req        `json:"alt_steps,omitempty"` // a second branch run from the same store (differential facts)
 	FailIf []Assert          `json:"fail_if"`
 	Shell  []string          `json:"shell"` // the same commands as shell lines, for humans
 	Note   string            `json:"note,omitempty"`
@@ -78,6 +79,22 @@ func runTrace(env *core.Env, t Trace, verbose bool) bool {
 			fmt.Printf("  step %d: %s\n    -> %s\n", i+1, t.Shell[i], res)
 		}
 	}
+	// alternative branch from the same initial store
+	var altLast core.Res
+	var altObs core.Obs
+	if len(t.Alt) > 0 {
+		if err := core.Store(t.Store).Materialize(root); err != nil {
+			env.HarnessError("replay materialize: %v", err)
+		}
+		for i, s := range t.Alt {
+			s.Cwd = filepath.Join(root, s.Cwd)
+			altLast = run(s)
+			if verbose {
+				fmt.Printf("  alt step %d: %s\n    -> %s\n", i+1, s.Shell(), altLast)
+			}
+		}
+		altObs = core.Observe(run, root)
+	}
 	all := true
 	for _, a := range t.FailIf {
 		if a.Step < 0 || a.Step > len(t.Steps) || a.Other < 0 || a.Other > len(t.Steps) {
@@ -92,6 +109,8 @@ func runTrace(env *core.Env, t Trace, verbose bool) bool {
 			ok = s.res.Exit != 0
 		case "obs_differs":
 			ok = s.obs.Norm(nil) != o.obs.Norm(nil)
+		case "raw_obs_differs": // byte-exact comparison incl. timestamps (only meaningful when the steps in between create nothing)
+			ok = s.obs.Raw() != o.obs.Raw()
 		case "obs_same":
 			ok = s.obs.Norm(nil) == o.obs.Norm(nil)
 		case "log_differs":
@@ -108,6 +127,9 @@ func runTrace(env *core.Env, t Trace, verbose bool) bool {
 			ok = strings.Contains(s.obs.Norm(nil), a.Text)
 		case "obs_lacks":
 			ok = !strings.Contains(s.obs.Norm(nil), a.Text)
+		case "alt_differs": // main branch and alternative branch end differently (exit code of the last step or observable state)
+			last := snaps[len(t.Steps)]
+			ok = last.res.Exit != altLast.Exit || last.obs.Norm(nil) != altObs.Norm(nil)
 		case "show_differs":
 			ok = s.obs.RawShow[a.Text] != o.obs.RawShow[a.Text]
 		case "read_fails":
